@@ -583,3 +583,416 @@ Proof.
     + rewrite He. f_equal. eapply inv_take; eassumption.
     + eapply inv_fails; [exact HI1| |exact He]. lia.
 Qed.
+
+(* ================= 5. refinement of the cursor specification ================= *)
+Lemma inv_init_reader s : spos s = 0 ->
+  Inv (sdata s) (sfinal s) (schunks s) 0 0 (new_reader s).
+Proof.
+  intros Hp. constructor; unfold new_reader; cbn [win ri cap rerr src].
+  - rewrite Hp. reflexivity.
+  - lia.
+  - reflexivity.
+  - unfold len. cbn [length]. lia.
+  - reflexivity.
+  - exists []. reflexivity.
+  - intros e He. discriminate.
+Qed.
+
+Lemma inv_init_bytes data bcap : len data <= bcap ->
+  Inv data e_eof [] 0 0 (new_bytes_reader data bcap).
+Proof.
+  intros Hcap. unfold new_bytes_reader. destruct (N.ltb_spec 0 bcap) as [Hpos|Hz].
+  - constructor; cbn [win ri cap rerr src fake_source sdata spos sfinal schunks].
+    + rewrite drop_nil, app_nil_r. reflexivity.
+    + lia.
+    + reflexivity.
+    + lia.
+    + reflexivity.
+    + exists []. reflexivity.
+    + intros e He. discriminate.
+  - assert (data = []) as -> by (apply len_zero_nil; lia).
+    apply (inv_init_reader fake_source). reflexivity.
+Qed.
+
+Lemma step_refines D F CH c rl st o st' out :
+  Inv D F CH c rl st -> r_step st o = (st', out) ->
+  exists cu', cursor_step D F CH {| cpos := c; crl := rl |} o out = Some cu' /\
+              Inv D F CH (cpos cu') (crl cu') st'.
+Proof.
+  intros HI H. destruct o as [n|n|n|k| |]; cbn [r_step] in H.
+  - (* Next *)
+    destruct (Z.ltb_spec n 0) as [Hneg|Hnn].
+    + rewrite next_neg in H by exact Hneg. inversion H; subst; clear H.
+      exists {| cpos := c; crl := rl |}. unfold cursor_step. cbn [cpos crl].
+      destruct (Z.ltb_spec n 0); [|lia]. rewrite Z.eqb_refl. split; [reflexivity|exact HI].
+    + destruct (next_spec _ _ _ _ _ _ _ _ _ HI Hnn H) as [(-> & Hfit & HI')|(e & -> & Hf & HI')].
+      * exists {| cpos := c + Z.to_N n; crl := rl + Z.to_N n |}. unfold cursor_step. cbn [cpos crl].
+        rewrite beqb_refl, seg_at_len, N.eqb_refl by exact Hfit.
+        destruct (Z.leb_spec 0 n); [|lia]. split; [reflexivity|exact HI'].
+      * exists {| cpos := c; crl := rl |}. unfold cursor_step. cbn [cpos crl].
+        destruct (Z.ltb_spec n 0); [lia|]. destruct (fails_fail_ok _ _ _ _ _ _ Hf) as [-> ->].
+        split; [reflexivity|exact HI'].
+  - (* Peek *)
+    destruct (Z.ltb_spec n 0) as [Hneg|Hnn].
+    + rewrite peek_neg in H by exact Hneg. inversion H; subst; clear H.
+      exists {| cpos := c; crl := rl |}. unfold cursor_step. cbn [cpos crl].
+      destruct (Z.ltb_spec n 0); [|lia]. rewrite Z.eqb_refl. split; [reflexivity|exact HI].
+    + destruct (peek_spec _ _ _ _ _ _ _ _ _ HI Hnn H) as [(-> & Hfit & HI')|(e & -> & Hf & HI')].
+      * exists {| cpos := c; crl := rl |}. unfold cursor_step. cbn [cpos crl].
+        rewrite beqb_refl, seg_at_len, N.eqb_refl by exact Hfit.
+        destruct (Z.leb_spec 0 n); [|lia]. split; [reflexivity|exact HI'].
+      * exists {| cpos := c; crl := rl |}. unfold cursor_step. cbn [cpos crl].
+        destruct (Z.ltb_spec n 0); [lia|]. destruct (fails_fail_ok _ _ _ _ _ _ Hf) as [-> ->].
+        split; [reflexivity|exact HI'].
+  - (* Skip *)
+    destruct (Z.ltb_spec n 0) as [Hneg|Hnn].
+    + rewrite skip_neg in H by exact Hneg. inversion H; subst; clear H.
+      exists {| cpos := c; crl := rl |}. unfold cursor_step. cbn [cpos crl].
+      destruct (Z.ltb_spec n 0); [|lia]. rewrite Z.eqb_refl. split; [reflexivity|exact HI].
+    + destruct (skip_spec _ _ _ _ _ _ _ _ _ HI Hnn H) as [(-> & Hfit & HI')|(e & -> & Hf & HI')].
+      * exists {| cpos := c + Z.to_N n; crl := rl + Z.to_N n |}. unfold cursor_step. cbn [cpos crl].
+        destruct (Z.leb_spec 0 n); [|lia]. destruct (N.leb_spec (c + Z.to_N n) (len D)); [|lia].
+        split; [reflexivity|exact HI'].
+      * exists {| cpos := c; crl := rl |}. unfold cursor_step. cbn [cpos crl].
+        destruct (Z.ltb_spec n 0); [lia|]. destruct (fails_fail_ok _ _ _ _ _ _ Hf) as [-> ->].
+        split; [reflexivity|exact HI'].
+  - (* ReadBinary *)
+    destruct (readbinary_spec _ _ _ _ _ _ _ _ _ HI H) as (m & Hmk & Hfit & HI' & [(-> & ->)|(Hlt & e & -> & Hf)]).
+    + exists {| cpos := c + k; crl := rl + k |}. unfold cursor_step. cbn [cpos crl].
+      rewrite beqb_refl, seg_at_len, !N.eqb_refl by exact Hfit.
+      destruct (N.leb_spec k k); [|lia]. split; [reflexivity|exact HI'].
+    + exists {| cpos := c + m; crl := rl + m |}. unfold cursor_step. cbn [cpos crl].
+      rewrite beqb_refl, seg_at_len, N.eqb_refl by exact Hfit.
+      destruct (N.leb_spec m k); [|lia]. destruct (N.ltb_spec m k); [|lia].
+      destruct (fails_fail_ok _ _ _ _ _ _ Hf) as [-> ->]. split; [reflexivity|exact HI'].
+  - (* ReadLen *)
+    inversion H; subst; clear H. exists {| cpos := c; crl := rl |}. unfold cursor_step, r_readlen. cbn [cpos crl].
+    rewrite (inv_rl _ _ _ _ _ _ HI), N.eqb_refl. split; [reflexivity|exact HI].
+  - (* Release *)
+    inversion H; subst; clear H. exists {| cpos := c; crl := 0 |}. unfold cursor_step. cbn [cpos crl].
+    split; [reflexivity|]. eapply release_inv. exact HI.
+Qed.
+
+Lemma run_refines D F CH : forall ops c rl st st' outs,
+  Inv D F CH c rl st -> r_run st ops = (st', outs) ->
+  cursor_run D F CH {| cpos := c; crl := rl |} ops outs = true /\ exists c' rl', Inv D F CH c' rl' st'.
+Proof.
+  induction ops as [|o ops IH]; intros c rl st st' outs HI H; cbn [r_run] in H.
+  - inversion H; subst. split; [reflexivity|]. eauto.
+  - destruct (r_step st o) as [st1 out] eqn:Hstep.
+    destruct (r_run st1 ops) as [st2 outs1] eqn:Hrun. inversion H; subst st' outs; clear H.
+    destruct (step_refines _ _ _ _ _ _ _ _ _ HI Hstep) as ([c1 rl1] & Hcs & HI1). cbn [cpos crl] in HI1.
+    destruct (IH _ _ _ _ _ HI1 Hrun) as [Hcr Hex].
+    split; [|exact Hex]. cbn [cursor_run]. rewrite Hcs. exact Hcr.
+Qed.
+
+Definition cursor0 : cursor := {| cpos := 0; crl := 0 |}.
+
+(* REFINEMENT: for every source (data, final error, with-data flag, script) and every history, the
+   model's outputs are accepted by the executable cursor specification *)
+Theorem reader_refines_cursor : forall s ops, spos s = 0 ->
+  cursor_run (sdata s) (sfinal s) (schunks s) cursor0 ops (snd (r_run (new_reader s) ops)) = true.
+Proof.
+  intros s ops Hp. destruct (r_run (new_reader s) ops) as [st' outs] eqn:Hrun. cbn [snd].
+  exact (proj1 (run_refines _ _ _ _ _ _ _ _ _ (inv_init_reader s Hp) Hrun)).
+Qed.
+
+Theorem bytes_reader_refines_cursor : forall data bcap ops, len data <= bcap ->
+  cursor_run data e_eof [] cursor0 ops (snd (r_run (new_bytes_reader data bcap) ops)) = true.
+Proof.
+  intros data bcap ops Hc. destruct (r_run (new_bytes_reader data bcap) ops) as [st' outs] eqn:Hrun. cbn [snd].
+  exact (proj1 (run_refines _ _ _ _ _ _ _ _ _ (inv_init_bytes data bcap Hc) Hrun)).
+Qed.
+
+(* (nil, nil) — a failed request without an error — is never produced, by any operation, in any
+   reachable state *)
+Lemma step_never_nil D F CH c rl st o st' :
+  Inv D F CH c rl st -> r_step st o <> (st', ONil).
+Proof.
+  intros HI H. destruct (step_refines _ _ _ _ _ _ _ _ _ HI H) as (cu' & Hcs & _).
+  destruct o; discriminate Hcs.
+Qed.
+
+(* FUEL of the loop inside acquireSlow: in every reachable state the call made by [acquire_slow] gives
+   the same result with any larger fuel, i.e. the out-of-fuel branch of [read_loop] is never taken *)
+Theorem acquire_loop_fuel_ok D F CH c rl st n extra :
+  Inv D F CH c rl st -> len (win st) < n ->
+  let st2 := grow_phase (alloc_phase st n) n in
+  let s := src st2 in let c0 := cur_of s in
+  read_loop (sfinal s) (swith s) (cap st2) (ri st2) n (loop_fuel c0 + extra) O c0 [] (len (win st2)) =
+  read_loop (sfinal s) (swith s) (cap st2) (ri st2) n (loop_fuel c0) O c0 [] (len (win st2)).
+Proof.
+  intros HI Hn.
+  destruct (alloc_phase_frame st n) as (Hw1 & Hi1 & Hs1 & He1 & Hc1).
+  destruct (grow_phase_frame (alloc_phase st n) n) as (Hw2 & Hi2 & Hs2 & He2 & Hc2).
+  destruct (Hc1 (inv_cap _ _ _ _ _ _ HI) ltac:(lia)) as [Hcap1 Hpos1].
+  rewrite Hw1 in Hc2, Hcap1. destruct (Hc2 Hcap1 Hpos1 Hn) as [Hcap2 Hroom2].
+  cbv zeta. apply read_loop_fuel_irrelevant.
+  - apply cur_of_wf.
+  - apply loop_fuel_measure.
+  - lia.
+  - rewrite Hw2, Hw1. exact Hn.
+  - exact Hroom2.
+Qed.
+
+(* ================= 6. INTERFACE for stream readers built on this model =================
+   Everything a client of the reader model needs, without unfolding the model:
+
+     RInv D F CH c st   "st is a reader state over the stream D (final error F, script CH) whose cursor
+                         stands at position c"  — established by the two constructors, preserved by
+                         every operation (the lemmas say where the cursor goes);
+     fails D F CH c n e  why a request for n bytes at c may fail with e: the source's own final error
+                         and fewer than n bytes left, or no-progress and a script that can stall.
+
+   For each operation: a general lemma (exact result or a provenanced error, cursor unchanged on
+   error), an _ok lemma (the request fits and the script cannot stall: it succeeds) and a _short
+   lemma (the request does not fit: it fails).  seg_at D c n = take n (drop c D). *)
+Definition RInv (D : bytes) (F : Z) (CH : list N) (c : N) (st : rstate) : Prop := Inv D F CH c (ri st) st.
+
+Lemma inv_rinv D F CH c rl st : Inv D F CH c rl st -> RInv D F CH c st.
+Proof. intros H. unfold RInv. rewrite (inv_rl _ _ _ _ _ _ H). exact H. Qed.
+
+Lemma rinv_readlen D F CH c rl st : Inv D F CH c rl st -> r_readlen st = rl.
+Proof. intros H. exact (inv_rl _ _ _ _ _ _ H). Qed.
+
+Lemma rinv_new_reader s : spos s = 0 -> RInv (sdata s) (sfinal s) (schunks s) 0 (new_reader s).
+Proof. intros H. eapply inv_rinv, inv_init_reader, H. Qed.
+
+Lemma rinv_new_bytes_reader data bcap : len data <= bcap -> RInv data e_eof [] 0 (new_bytes_reader data bcap).
+Proof. intros H. eapply inv_rinv, inv_init_bytes, H. Qed.
+
+Lemma rinv_cursor_le D F CH c st : RInv D F CH c st -> c <= len D.
+Proof. intros H. exact (inv_c _ _ _ _ _ _ H). Qed.
+
+Lemma fails_nonnil D F CH c n e : fails D F CH c n e -> F <> 0%Z -> e <> 0%Z.
+Proof. intros [[-> _]|[-> _]] HF; [exact HF|discriminate]. Qed.
+
+Lemma fails_short_or_stall D F CH c n e : fails D F CH c n e -> len D < c + n \/ may_stall CH = true.
+Proof. intros [[_ H]|[_ H]]; auto. Qed.
+
+(* ---- Next ---- *)
+Lemma rinv_next D F CH c st n st' out :
+  RInv D F CH c st -> (0 <= n)%Z -> r_next st n = (st', out) ->
+  (out = OBytes (seg_at D c (Z.to_N n)) /\ len (seg_at D c (Z.to_N n)) = Z.to_N n /\ c + Z.to_N n <= len D /\
+   RInv D F CH (c + Z.to_N n) st' /\ r_readlen st' = r_readlen st + Z.to_N n) \/
+  (exists e, out = OErr e /\ fails D F CH c (Z.to_N n) e /\ RInv D F CH c st' /\ r_readlen st' = r_readlen st).
+Proof.
+  intros HI Hn H. destruct (next_spec _ _ _ _ _ _ _ _ _ HI Hn H) as [(-> & Hfit & HI')|(e & -> & Hf & HI')].
+  - left. split; [reflexivity|]. split; [apply seg_at_len, Hfit|]. split; [exact Hfit|].
+    split; [eapply inv_rinv, HI'|exact (inv_rl _ _ _ _ _ _ HI')].
+  - right. exists e. split; [reflexivity|]. split; [exact Hf|].
+    split; [eapply inv_rinv, HI'|exact (inv_rl _ _ _ _ _ _ HI')].
+Qed.
+
+Lemma rinv_next_ok D F CH c st n :
+  RInv D F CH c st -> may_stall CH = false -> c + n <= len D ->
+  exists st', r_next st (Z.of_N n) = (st', OBytes (seg_at D c n)) /\ len (seg_at D c n) = n /\
+              RInv D F CH (c + n) st' /\ r_readlen st' = r_readlen st + n.
+Proof.
+  intros HI Hns Hfit. destruct (r_next st (Z.of_N n)) as [st' out] eqn:H. exists st'.
+  destruct (rinv_next _ _ _ _ _ _ _ _ HI (N2Z.is_nonneg n) H) as [(-> & Hl & _ & HI' & Hrl)|(e & _ & Hf & _)];
+    rewrite ?N2Z.id in *.
+  - auto.
+  - destruct (fails_short_or_stall _ _ _ _ _ _ Hf); [lia|congruence].
+Qed.
+
+Lemma rinv_next_short D F CH c st n :
+  RInv D F CH c st -> len D < c + n ->
+  exists st' e, r_next st (Z.of_N n) = (st', OErr e) /\ fails D F CH c n e /\
+                RInv D F CH c st' /\ r_readlen st' = r_readlen st.
+Proof.
+  intros HI Hshort. destruct (r_next st (Z.of_N n)) as [st' out] eqn:H. exists st'.
+  destruct (rinv_next _ _ _ _ _ _ _ _ HI (N2Z.is_nonneg n) H) as [(_ & _ & Hfit & _)|(e & -> & Hf & HI' & Hrl)];
+    rewrite ?N2Z.id in *.
+  - lia.
+  - exists e. auto.
+Qed.
+
+(* ---- Peek: never moves the cursor, never changes ReadLen ---- *)
+Lemma rinv_peek D F CH c st n st' out :
+  RInv D F CH c st -> (0 <= n)%Z -> r_peek st n = (st', out) ->
+  RInv D F CH c st' /\ r_readlen st' = r_readlen st /\
+  ((out = OBytes (seg_at D c (Z.to_N n)) /\ len (seg_at D c (Z.to_N n)) = Z.to_N n /\ c + Z.to_N n <= len D) \/
+   (exists e, out = OErr e /\ fails D F CH c (Z.to_N n) e)).
+Proof.
+  intros HI Hn H. destruct (peek_spec _ _ _ _ _ _ _ _ _ HI Hn H) as [(-> & Hfit & HI')|(e & -> & Hf & HI')].
+  - split; [eapply inv_rinv, HI'|]. split; [exact (inv_rl _ _ _ _ _ _ HI')|].
+    left. split; [reflexivity|]. split; [apply seg_at_len, Hfit|exact Hfit].
+  - split; [eapply inv_rinv, HI'|]. split; [exact (inv_rl _ _ _ _ _ _ HI')|].
+    right. exists e. split; [reflexivity|exact Hf].
+Qed.
+
+Lemma rinv_peek_ok D F CH c st n :
+  RInv D F CH c st -> may_stall CH = false -> c + n <= len D ->
+  exists st', r_peek st (Z.of_N n) = (st', OBytes (seg_at D c n)) /\ len (seg_at D c n) = n /\
+              RInv D F CH c st' /\ r_readlen st' = r_readlen st.
+Proof.
+  intros HI Hns Hfit. destruct (r_peek st (Z.of_N n)) as [st' out] eqn:H. exists st'.
+  destruct (rinv_peek _ _ _ _ _ _ _ _ HI (N2Z.is_nonneg n) H) as (HI' & Hrl & [(-> & Hl & _)|(e & _ & Hf)]);
+    rewrite ?N2Z.id in *.
+  - auto.
+  - destruct (fails_short_or_stall _ _ _ _ _ _ Hf); [lia|congruence].
+Qed.
+
+Lemma rinv_peek_short D F CH c st n :
+  RInv D F CH c st -> len D < c + n ->
+  exists st' e, r_peek st (Z.of_N n) = (st', OErr e) /\ fails D F CH c n e /\
+                RInv D F CH c st' /\ r_readlen st' = r_readlen st.
+Proof.
+  intros HI Hshort. destruct (r_peek st (Z.of_N n)) as [st' out] eqn:H. exists st'.
+  destruct (rinv_peek _ _ _ _ _ _ _ _ HI (N2Z.is_nonneg n) H) as (HI' & Hrl & [(_ & _ & Hfit)|(e & -> & Hf)]);
+    rewrite ?N2Z.id in *.
+  - lia.
+  - exists e. auto.
+Qed.
+
+(* ---- Skip ---- *)
+Lemma rinv_skip D F CH c st n st' out :
+  RInv D F CH c st -> (0 <= n)%Z -> r_skip st n = (st', out) ->
+  (out = OUnit /\ c + Z.to_N n <= len D /\ RInv D F CH (c + Z.to_N n) st' /\
+   r_readlen st' = r_readlen st + Z.to_N n) \/
+  (exists e, out = OErr e /\ fails D F CH c (Z.to_N n) e /\ RInv D F CH c st' /\ r_readlen st' = r_readlen st).
+Proof.
+  intros HI Hn H. destruct (skip_spec _ _ _ _ _ _ _ _ _ HI Hn H) as [(-> & Hfit & HI')|(e & -> & Hf & HI')].
+  - left. split; [reflexivity|]. split; [exact Hfit|].
+    split; [eapply inv_rinv, HI'|exact (inv_rl _ _ _ _ _ _ HI')].
+  - right. exists e. split; [reflexivity|]. split; [exact Hf|].
+    split; [eapply inv_rinv, HI'|exact (inv_rl _ _ _ _ _ _ HI')].
+Qed.
+
+Lemma rinv_skip_ok D F CH c st n :
+  RInv D F CH c st -> may_stall CH = false -> c + n <= len D ->
+  exists st', r_skip st (Z.of_N n) = (st', OUnit) /\ RInv D F CH (c + n) st' /\
+              r_readlen st' = r_readlen st + n.
+Proof.
+  intros HI Hns Hfit. destruct (r_skip st (Z.of_N n)) as [st' out] eqn:H. exists st'.
+  destruct (rinv_skip _ _ _ _ _ _ _ _ HI (N2Z.is_nonneg n) H) as [(-> & _ & HI' & Hrl)|(e & _ & Hf & _)];
+    rewrite ?N2Z.id in *.
+  - auto.
+  - destruct (fails_short_or_stall _ _ _ _ _ _ Hf); [lia|congruence].
+Qed.
+
+Lemma rinv_skip_short D F CH c st n :
+  RInv D F CH c st -> len D < c + n ->
+  exists st' e, r_skip st (Z.of_N n) = (st', OErr e) /\ fails D F CH c n e /\
+                RInv D F CH c st' /\ r_readlen st' = r_readlen st.
+Proof.
+  intros HI Hshort. destruct (r_skip st (Z.of_N n)) as [st' out] eqn:H. exists st'.
+  destruct (rinv_skip _ _ _ _ _ _ _ _ HI (N2Z.is_nonneg n) H) as [(_ & Hfit & _)|(e & -> & Hf & HI' & Hrl)];
+    rewrite ?N2Z.id in *.
+  - lia.
+  - exists e. auto.
+Qed.
+
+(* ---- ReadBinary ---- *)
+Lemma rinv_readbinary D F CH c st k st' out :
+  RInv D F CH c st -> r_readbinary st k = (st', out) ->
+  exists m, m <= k /\ c + m <= len D /\ len (seg_at D c m) = m /\
+    RInv D F CH (c + m) st' /\ r_readlen st' = r_readlen st + m /\
+    ((m = k /\ out = ORead k (seg_at D c k) None) \/
+     (m < k /\ exists e, out = ORead m (seg_at D c m) (Some e) /\ fails D F CH c k e)).
+Proof.
+  intros HI H. destruct (readbinary_spec _ _ _ _ _ _ _ _ _ HI H) as (m & Hmk & Hfit & HI' & Hout).
+  exists m. split; [exact Hmk|]. split; [exact Hfit|]. split; [apply seg_at_len, Hfit|].
+  split; [eapply inv_rinv, HI'|]. split; [exact (inv_rl _ _ _ _ _ _ HI')|exact Hout].
+Qed.
+
+Lemma rinv_readbinary_ok D F CH c st k :
+  RInv D F CH c st -> may_stall CH = false -> c + k <= len D ->
+  exists st', r_readbinary st k = (st', ORead k (seg_at D c k) None) /\ len (seg_at D c k) = k /\
+              RInv D F CH (c + k) st' /\ r_readlen st' = r_readlen st + k.
+Proof.
+  intros HI Hns Hfit. destruct (r_readbinary st k) as [st' out] eqn:H. exists st'.
+  destruct (rinv_readbinary _ _ _ _ _ _ _ _ HI H)
+    as (m & Hmk & Hfm & Hl & HI' & Hrl & [(-> & ->)|(Hlt & e & _ & Hf)]).
+  - auto.
+  - destruct (fails_short_or_stall _ _ _ _ _ _ Hf); [lia|congruence].
+Qed.
+
+Lemma rinv_readbinary_short D F CH c st k :
+  RInv D F CH c st -> len D < c + k ->
+  exists st' m e, r_readbinary st k = (st', ORead m (seg_at D c m) (Some e)) /\ m < k /\ c + m <= len D /\
+                  len (seg_at D c m) = m /\ fails D F CH c k e /\
+                  RInv D F CH (c + m) st' /\ r_readlen st' = r_readlen st + m.
+Proof.
+  intros HI Hshort. destruct (r_readbinary st k) as [st' out] eqn:H. exists st'.
+  destruct (rinv_readbinary _ _ _ _ _ _ _ _ HI H)
+    as (m & Hmk & Hfm & Hl & HI' & Hrl & [(-> & ->)|(Hlt & e & -> & Hf)]).
+  - lia.
+  - exists m, e. auto 10.
+Qed.
+
+(* ---- ReadLen / Release ---- *)
+Lemma rinv_release D F CH c st : RInv D F CH c st ->
+  RInv D F CH c (r_release st) /\ r_readlen (r_release st) = 0.
+Proof.
+  intros HI. pose proof (release_inv _ _ _ _ _ _ HI) as H. split; [eapply inv_rinv, H|exact (inv_rl _ _ _ _ _ _ H)].
+Qed.
+
+(* every operation keeps the state inside the invariant (at the cursor the lemmas above give) *)
+Lemma rinv_step D F CH c st o st' out :
+  RInv D F CH c st -> r_step st o = (st', out) -> exists c', c <= c' /\ RInv D F CH c' st'.
+Proof.
+  intros HI H. destruct (step_refines _ _ _ _ _ _ _ _ _ HI H) as ([c' rl'] & Hcs & HI'). cbn [cpos crl] in HI'.
+  exists c'. split; [|eapply inv_rinv, HI'].
+  unfold cursor_step in Hcs. cbn [cpos crl] in Hcs.
+  destruct o, out; try discriminate Hcs;
+    repeat match type of Hcs with
+           | (if ?b then _ else _) = _ => destruct b; try discriminate Hcs
+           | (match ?b with _ => _ end) = _ => destruct b; try discriminate Hcs
+           end; inversion Hcs; lia.
+Qed.
+
+Lemma rinv_run D F CH : forall ops c st st' outs,
+  RInv D F CH c st -> r_run st ops = (st', outs) -> exists c', c <= c' /\ RInv D F CH c' st'.
+Proof.
+  induction ops as [|o ops IH]; intros c st st' outs HI H; cbn [r_run] in H.
+  - inversion H; subst. exists c. split; [lia|exact HI].
+  - destruct (r_step st o) as [st1 out] eqn:Hstep.
+    destruct (r_run st1 ops) as [st2 outs1] eqn:Hrun. inversion H; subst st' outs; clear H.
+    destruct (rinv_step _ _ _ _ _ _ _ _ HI Hstep) as (c1 & Hle1 & HI1).
+    destruct (IH _ _ _ _ HI1 Hrun) as (c2 & Hle2 & HI2). exists c2. split; [lia|exact HI2].
+Qed.
+
+(* ---- summaries used by Properties/C04.v ---- *)
+Lemma negative_count st n : (n < 0)%Z ->
+  r_next st n = (st, OErr e_negcount) /\ r_peek st n = (st, OErr e_negcount) /\ r_skip st n = (st, OErr e_negcount).
+Proof. intros H. exact (conj (next_neg st n H) (conj (peek_neg st n H) (skip_neg st n H))). Qed.
+
+Lemma rinv_never_nil D F CH c st o st' : RInv D F CH c st -> r_step st o <> (st', ONil).
+Proof. intros H. exact (step_never_nil _ _ _ _ _ _ _ _ H). Qed.
+
+Lemma fitting_request_succeeds D F CH c st n :
+  RInv D F CH c st -> may_stall CH = false -> c + n <= len D ->
+  (exists st', r_next st (Z.of_N n) = (st', OBytes (seg_at D c n)) /\ RInv D F CH (c + n) st') /\
+  (exists st', r_peek st (Z.of_N n) = (st', OBytes (seg_at D c n)) /\ RInv D F CH c st') /\
+  (exists st', r_skip st (Z.of_N n) = (st', OUnit) /\ RInv D F CH (c + n) st') /\
+  (exists st', r_readbinary st n = (st', ORead n (seg_at D c n) None) /\ RInv D F CH (c + n) st').
+Proof.
+  intros HI Hns Hfit.
+  destruct (rinv_next_ok _ _ _ _ _ _ HI Hns Hfit) as (s1 & H1 & _ & I1 & _).
+  destruct (rinv_peek_ok _ _ _ _ _ _ HI Hns Hfit) as (s2 & H2 & _ & I2 & _).
+  destruct (rinv_skip_ok _ _ _ _ _ _ HI Hns Hfit) as (s3 & H3 & I3 & _).
+  destruct (rinv_readbinary_ok _ _ _ _ _ _ HI Hns Hfit) as (s4 & H4 & _ & I4 & _).
+  split; [exists s1; auto|]. split; [exists s2; auto|]. split; [exists s3; auto|exists s4; auto].
+Qed.
+
+Lemma overlong_request_fails D F CH c st n :
+  RInv D F CH c st -> len D < c + n ->
+  exists st' e, r_next st (Z.of_N n) = (st', OErr e) /\ fails D F CH c n e /\ RInv D F CH c st'.
+Proof.
+  intros HI Hs. destruct (rinv_next_short _ _ _ _ _ _ HI Hs) as (st' & e & H & Hf & HI' & _).
+  exists st', e. auto.
+Qed.
+
+Lemma rinv_loop_fuel_ok D F CH c st n extra :
+  RInv D F CH c st -> len (win st) < n ->
+  let st2 := grow_phase (alloc_phase st n) n in
+  let s := src st2 in let c0 := cur_of s in
+  read_loop (sfinal s) (swith s) (cap st2) (ri st2) n (loop_fuel c0 + extra) O c0 [] (len (win st2)) =
+  read_loop (sfinal s) (swith s) (cap st2) (ri st2) n (loop_fuel c0) O c0 [] (len (win st2)).
+Proof. intros H. exact (acquire_loop_fuel_ok _ _ _ _ _ _ _ extra H). Qed.
+
+Lemma fails_unfold D F CH c n e : fails D F CH c n e ->
+  (e = F /\ len D < c + n) \/ (e = e_noprogress /\ may_stall CH = true).
+Proof. intros H. exact H. Qed.
